@@ -118,6 +118,15 @@ CHECKS = {
                 note='restart() after stop() and restart() of an expired one-shot timer from outside its callback are unspecified: '
                      'afterwards only no-raise is demanded for that timer.',
                 ref='4/C19'),
+    'C08': dict(engine='N', what='random linear and fan-in/fan-out compositions of ports, wires, token buckets, all six schedulers, '
+                'demultiplexers and both switches between injectors / real DistPacketGenerators and real PacketSinks',
+                text='Seeded exploration: every element of a generated pipeline is wrapped by identity-recording taps; per element each '
+                     'emitted packet must be a received one (same object, same identifying fields, not more often than received), at '
+                     'quiescence the packets that did not leave must equal what the element\'s documented rule explains (drop '
+                     'counter, scripted loss draws, routing rule) and nothing may be held; per-flow order per element; generator and '
+                     'sink bookkeeping against the taps.',
+                note='Workloads use flows configured in every scheduler on their path; routing correctness itself is C18.',
+                ref='4/C08'),
 }
 
 ENGINES = [
